@@ -186,6 +186,10 @@ class Program:
         for k, f in self.funcs.items():
             outs = set()
             for e in walk(f):
+                if isinstance(e, dict) and e.get('k') == 'fn':
+                    # address taken (predicate / callback): counts as a possible call
+                    for g in self.by_q.get(e.get('f'), []):
+                        outs.add(g['key'])
                 if isinstance(e, dict) and e.get('k') in ('call', 'mcall', 'ctor') and e.get('fid'):
                     outs.add(e['fid'])
                     if e.get('virt'):
